@@ -7,12 +7,16 @@ property predicate evaluated on the implementation) -> decide -> evidence.
 import atexit, hashlib, json, os, re, shutil, subprocess, sys, time
 
 ROOT = os.path.dirname(os.path.dirname(os.path.abspath(__file__)))
-LEAN = os.path.join(ROOT, "lean")
+# VERIF_LEAN / VERIF_OUT / VERIF_REPO let a mutation run use a private copy of the lake
+# project, a private evidence/replay directory and a scratch worktree (tools/mutcheck.sh);
+# registered commands never set them.
+LEAN = os.environ.get("VERIF_LEAN") or os.path.join(ROOT, "lean")
+OUT = os.environ.get("VERIF_OUT") or ROOT
 HARNESS = os.path.join(ROOT, "harness")
 EXTRACT = os.path.join(ROOT, "extract")
 REPO = os.environ.get("VERIF_REPO", "/repo")
 ALLOWED_AXIOMS = {"propext", "Classical.choice", "Quot.sound"}
-FORBIDDEN = re.compile(r"\bsorry\b|\badmit\b|^\s*axiom\s|native_decide|bv_decide|implemented_by|\bunsafe\s|maxHeartbeats\s+0\b|\bpartial\s+def\b", re.M)
+FORBIDDEN = re.compile(r"\bsorry\b|\badmit\b|^\s*axiom\s|native_decide|bv_decide|implemented_by|\bunsafe\s|maxHeartbeats\s+0\b|\bpartial\s+def\b|@\[extern|@\[csimp", re.M)
 
 GOENV = dict(os.environ, GOFLAGS="-mod=mod", GOPROXY="off", GOSUMDB="off", GOTOOLCHAIN="local", CGO_ENABLED="0")
 
@@ -68,7 +72,7 @@ class Ctx:
     def __init__(self, pid, tier, seed):
         self.pid, self.tier, self.seed = pid, tier, seed
         self.t0 = time.time()
-        self.work = os.path.join(ROOT, ".work", "%s-%s-%d" % (pid, tier, os.getpid()))
+        self.work = os.path.join(OUT, ".work", "%s-%s-%d" % (pid, tier, os.getpid()))
         os.makedirs(self.work, exist_ok=True)
         atexit.register(lambda: shutil.rmtree(self.work, ignore_errors=True))
         self.obligations = 0
@@ -83,6 +87,7 @@ class Ctx:
         self.notes = []
         self.checker_cmds = []
         self.known = load_known(pid)
+        self.driver_exe = "gopdriver"
 
     # ---- steps -----------------------------------------------------------
     def log(self, *a):
@@ -118,7 +123,7 @@ class Ctx:
                 p = os.path.join(dp, f)
                 src = strip_comments(open(p).read())
                 for m in FORBIDDEN.finditer(src):
-                    if f == "Main.lean" and "partial" in m.group(0): continue
+                    if f == "Loop.lean" and "partial" in m.group(0): continue  # the driver's IO loop only
                     bad.append("%s: %s" % (os.path.relpath(p, LEAN), m.group(0).strip()))
         return bad
 
@@ -183,10 +188,18 @@ class Ctx:
             self.broken.append("leanchecker rejected %s: %s" % (module, out[-400:]))
         return rc == 0
 
-    def build_harness(self, name):
-        shutil.copy(os.path.join(REPO, "go.sum"), os.path.join(HARNESS, "go.sum"))
+    def modfile(self):
+        """go.mod/go.sum for the harness with `replace github.com/goplus/xgo => REPO`."""
+        mf = os.path.join(self.work, "harness.go.mod")
+        if not os.path.exists(mf):
+            src = open(os.path.join(HARNESS, "go.mod")).read().replace("=> /repo", "=> " + REPO)
+            open(mf, "w").write(src)
+            shutil.copy(os.path.join(REPO, "go.sum"), os.path.join(self.work, "harness.go.sum"))
+        return mf
+
+    def build_harness(self, name, tags="verif"):
         exe = os.path.join(self.work, name)
-        rc, out = sh(["go", "build", "-tags", "verif", "-o", exe, "./cmd/" + name], cwd=HARNESS, env=GOENV, timeout=1200)
+        rc, out = sh(["go", "build", "-modfile", self.modfile(), "-tags", tags, "-o", exe, "./cmd/" + name], cwd=HARNESS, env=GOENV, timeout=1200)
         if rc != 0:
             return None, out
         return exe, out
@@ -208,7 +221,7 @@ class Ctx:
         return outdir
 
     def driver(self, cases_path, out_path, timeout=3000):
-        exe = os.path.join(LEAN, ".lake", "build", "bin", "gopdriver")
+        exe = os.path.join(LEAN, ".lake", "build", "bin", self.driver_exe)
         with open(cases_path, "rb") as fi, open(out_path, "wb") as fo:
             p = subprocess.run([exe], stdin=fi, stdout=fo, stderr=subprocess.PIPE, timeout=timeout)
         if p.returncode != 0:
@@ -266,8 +279,8 @@ class Ctx:
     # ---- decisions -------------------------------------------------------
     def write_replay(self, key, obj):
         h = hashlib.sha1((key + json.dumps(obj, sort_keys=True)).encode()).hexdigest()[:10]
-        os.makedirs(os.path.join(ROOT, "replays"), exist_ok=True)
-        path = os.path.join(ROOT, "replays", "%s-%s.json" % (self.pid, h))
+        os.makedirs(os.path.join(OUT, "replays"), exist_ok=True)
+        path = os.path.join(OUT, "replays", "%s-%s.json" % (self.pid, h))
         obj = dict(obj, property=self.pid, key=key, seed=self.seed, tier=self.tier)
         with open(path, "w") as f:
             json.dump(obj, f, indent=1)
@@ -313,8 +326,8 @@ class Ctx:
             "coverage": cov, "assumptions": self.assumptions,
             "wall_s": round(time.time() - self.t0, 2), "violations": len(self.violations),
         }
-        os.makedirs(os.path.join(ROOT, "evidence"), exist_ok=True)
-        with open(os.path.join(ROOT, "evidence", self.pid + ".json"), "w") as f:
+        os.makedirs(os.path.join(OUT, "evidence"), exist_ok=True)
+        with open(os.path.join(OUT, "evidence", self.pid + ".json"), "w") as f:
             json.dump(ev, f, indent=1)
         for key, text in self.known_hit:
             print("KNOWN-FINDING: property=%s %s" % (self.pid, text))
@@ -341,7 +354,8 @@ def load_known(pid):
 
 
 def standard(ctx, prop_module, harness, n_quick, n_thorough, rule, extract=(), canon=None,
-             oracle_is_violation=True, level="proof", pre=None, post=None, leancheck=True):
+             oracle_is_violation=True, level="proof", pre=None, post=None, leancheck=True,
+             driver="gopdriver"):
     """The common flow for a differential + oracle + proof check."""
     concrete_before = len(ctx.violations)
     if extract:
@@ -349,7 +363,8 @@ def standard(ctx, prop_module, harness, n_quick, n_thorough, rule, extract=(), c
         if not ok:
             ctx.broken.append("translator tie: " + msg)
     if pre: pre(ctx)
-    proved = ctx.prove(prop_module)
+    ctx.driver_exe = driver
+    proved = ctx.prove(prop_module, [prop_module, driver])
     if proved and ctx.tier == "thorough" and leancheck:
         ctx.leanchecker(prop_module)
     n = n_thorough if ctx.tier == "thorough" else n_quick
@@ -360,7 +375,7 @@ def standard(ctx, prop_module, harness, n_quick, n_thorough, rule, extract=(), c
         for key, case, detail in ctx.oracle_failures(outdir):
             ctx.report_concrete(key, {"case": case, "detail": detail, "harness": harness,
                                       "how": "property predicate evaluated on the real implementation"})
-        driver_ok = os.path.exists(os.path.join(LEAN, ".lake", "build", "bin", "gopdriver"))
+        driver_ok = os.path.exists(os.path.join(LEAN, ".lake", "build", "bin", driver))
         if driver_ok:
             dis = ctx.differential(outdir, canon)
             if dis:
